@@ -1217,13 +1217,15 @@ def _prepare_import_into_project(origin, project, schema=None):
 
     """
     if os.path.isfile(origin):
-        if zipfile.is_zipfile(origin):
-            with zipfile.ZipFile(origin) as file:
-                yield _analyze_zipfile_for_import(file, project, schema)
-        elif tarfile.is_tarfile(origin):
+        # Check for tar archives first: an uncompressed tar archive that
+        # contains a zip file passes for a zip file, but not the other way round.
+        if tarfile.is_tarfile(origin):
             with TemporaryDirectory() as tmpdir:
                 with tarfile.open(origin) as file:
                     yield _analyze_tarfile_for_import(file, project, schema, tmpdir)
+        elif zipfile.is_zipfile(origin):
+            with zipfile.ZipFile(origin) as file:
+                yield _analyze_zipfile_for_import(file, project, schema)
         else:
             raise RuntimeError(f"Unknown file type: '{origin}'.")
     elif os.path.isdir(origin):
